@@ -94,3 +94,13 @@ Proof.
     + intros [[|z l] [r H]]; simpl in H; [left; now exists r|].
       injection H as -> ->. right. now exists l, r.
 Qed.
+
+(* ASCII literals for readability: "date" as a list of code points *)
+From Coq Require Import Ascii.
+From Coq Require String.
+Import String (string, EmptyString, String).
+Fixpoint s2l (s : string) : str :=
+  match s with
+  | EmptyString => []
+  | String a s' => N_of_ascii a :: s2l s'
+  end.
